@@ -307,7 +307,8 @@ int assemble_code(
     return -1;
   }
 
-  uint32_t address;
+  // 64 bit so the loop ends when the highest address is 0xffffffff.
+  uint64_t address;
 
   for (address = asm_context.memory.low_address;
        address <= asm_context.memory.high_address;
